@@ -66,8 +66,9 @@ prop('C03', True, "Theorems: run_after_deps, blocked_while_dep_missing, args_are
      " Ground truth of dependencies is measured independently of Task.dependencies() (loads of a cache-free sequential run) for every embedding kind and compared with what the code reports; edge tests hold a worker inside a dependency while others run.",
      EXEC_NOTE, "Lean 4 proof + kernel-checked extracted worker-loop paths + trace validation + dependency ground-truth comparison")
 prop('C11', True, "Theorems: failure_stores_nothing, failed_cannot_dump, publish_needs_normal_return, dependents_never_start, exit_nonzero_after_failure, failed_unlock/failed_mark (release iff not --keep-failed), "
-     "keep_going_continues, failed_lock_blocks/no_begin/persists, cleanup_failed_reenables." + TIE + " Runs inject failing task subsets under all flag combinations, follow-up runs and the real `cleanup --failed-only`.",
-     EXEC_NOTE + " 'Every independent task completes under --keep-going' is a liveness-flavoured statement checked by monitors on the runs, not proved.", "Lean 4 proof + kernel-checked extracted worker-loop paths (exception subtrees) + trace validation")
+     "keep_going_continues, failed_lock_blocks/no_begin/persists, cleanup_failed_reenables, keep_going_completes_independents (any number of workers, any interleaving, tasks failing in --keep-going workers with or "
+     "without --keep-failed: when all workers have left, every task has a result or is blocked = failed itself or transitively behind a failed task; joint invariant with the scan ghost of C01), failedT_iff." + TIE + " Runs inject failing task subsets under all flag combinations, follow-up runs and the real `cleanup --failed-only`.",
+     EXEC_NOTE + " 'Every independent task completes under --keep-going' is proved relative to the scan obligation (see C01), which the real loop keeps on every extracted path (incl. the failure paths, worker_scans_all) and on every validated history.", "Lean 4 proof + kernel-checked extracted worker-loop paths (exception subtrees) + trace validation")
 prop('C12', True, "Theorems: stop_leaves_no_lock (an exited worker holds no lock, any history), stop_always_enabled (a stop can surface in every live state), stop_changes_nothing_shared, stopping_only_unlocks_and_exits, "
      "cannot_exit_holding, interrupted_task_has_no_result, state_after_stop_is_regular; bridge stop_mechanisms_use_known_hooks over the table re-extracted from exit_checks.py/execute.py." + TIE +
      " Runs raise SystemExit/KeyboardInterrupt inside every task function, inside the wait-loop sleep and from the task-count hook; real processes with real SIGTERM/SIGINT in both tiers.",
